@@ -4,5 +4,13 @@ package protocol
 
 // C11 (uspec): the bound ParseConnectionID panics above.
 func VerifUSpecConsts() [][2]any {
-	return [][2]any{{"uspec_maxConnectionIDLen", int64(maxConnectionIDLen)}}
+	return [][2]any{
+		{"uspec_maxConnectionIDLen", int64(maxConnectionIDLen)},
+		// the defaults PopulateFromUQUIC starts the connection's record with
+		{"uspec_DefaultMaxAckDelayNs", int64(DefaultMaxAckDelay)},
+		{"uspec_DefaultActiveConnectionIDLimit", int64(DefaultActiveConnectionIDLimit)},
+		{"uspec_DefaultAckDelayExponent", int64(DefaultAckDelayExponent)},
+		{"uspec_InvalidByteCount", int64(InvalidByteCount)},
+		{"uspec_MaxByteCount", int64(MaxByteCount)},
+	}
 }
